@@ -29,10 +29,24 @@ def run(tier, seed):
         cls0 = __import__("harness.classes", fromlist=["x"]).build(cspec)
         if __import__("harness.classes", fromlist=["x"]).role_of(cls0) == "module":
             site0 = str(cls0.cutter.site)
-            s3 = s + gen.rnd(rng.randint(2, 5), rng) + rng.choice([site0, __import__("harness.dna", fromlist=["x"]).rc(site0)]) + gen.rnd(rng.randint(2, 6), rng)
+            gap3 = rng.randint(1, 6)          # 1: the extra site's cut falls exactly on the structure's first overhang
+            s3 = s + gen.rnd(rng.randint(2, 5), rng) + rng.choice([site0, __import__("harness.dna", fromlist=["x"]).rc(site0)]) + gen.rnd(gap3, rng)
             n3 = len(s3)
-            for k in rng.sample(range(n3), 3 if q else 10):
+            # ... and the origin INSIDE that extra site or between it and the structure (outside the class's own structure)
+            near = [d for d in range(1, gap3 + len(site0) + 1)] + [n3 - d for d in range(1, gap3 + len(site0) + 1)]
+            for k in rng.sample(range(n3), 3 if q else 10) + rng.sample(near, 3 if q else len(near)):
                 recipes.append({"fn": "typing", "cls": cspec, "seq": s3, "twin": {"by": "rot", "k": k, "via": "api"}})
+            # ... and the extra site placed so that its cut falls EXACTLY on the structure's outer overhang: directly in front of
+            # the structure (site, then `off` letters) or directly behind it (`off` letters, then the site on the other strand)
+            from ..enz import geometry as _geom
+            _site, off0, _ovh = _geom(cls0.cutter)
+            core0 = gen.instantiate(cls0.structure(), rng)
+            rc0 = __import__("harness.dna", fromlist=["x"]).rc(site0)
+            for s4 in (core0 + gen.rnd(rng.randint(3, 8), rng) + site0 + gen.rnd(off0, rng),
+                       core0 + gen.rnd(off0, rng) + rc0 + gen.rnd(rng.randint(3, 8), rng)):
+                n4 = len(s4)
+                for k in rng.sample(range(1, n4), 2 if q else 8) + [rng.choice([1, 2, 3, n4 - 1, n4 - 2, n4 - 3])]:
+                    recipes.append({"fn": "typing", "cls": cspec, "seq": s4, "twin": {"by": "rot", "k": k, "via": "api"}})
         # records with several matches / mutated ones are judged too (precondition evaluated by the spec)
         s2 = gen.mutate(s, rng)
         recipes.append({"fn": "typing", "cls": cspec, "seq": s2, "twin": {"by": "rot", "k": rng.randrange(1, n), "via": "api"}})
